@@ -96,11 +96,11 @@ type extGen struct {
 	// first depends on the built-in layout): they are never looked up and never serve
 	// as a parent handle in that run - decided when the first carrier is created.
 	predOn            *inputs.Input // the next predicate is modelled on this input
-	pendingTrapParent *model.Ext // the accepting extension a trap hangs on (to be registered first)
-	collideOn  bool
-	ambiguous  map[string]bool
-	twinnable  []*model.Ext
-	builtinDup []string // built-in names reserved for duplication in this run
+	pendingTrapParent *model.Ext    // the accepting extension a trap hangs on (to be registered first)
+	collideOn         bool
+	ambiguous         map[string]bool
+	twinnable         []*model.Ext
+	builtinDup        []string // built-in names reserved for duplication in this run
 }
 
 // extMenu are file name extensions: a name says nothing about the content.
@@ -489,7 +489,7 @@ func randDelivery(r *core.Rand, n int, faultChance int) *simio.Delivery {
 		d.FaultAt = r.Range(0, n)
 		d.FaultWithData = r.Chance(1, 2)
 		if r.Chance(1, 3) {
-			d.ErrWraps = 1 + r.Intn(7)
+			d.ErrWraps = 1 + r.Intn(simio.NFlavours-1)
 		}
 		d.Recover = r.Chance(1, 4)
 	}
